@@ -97,6 +97,22 @@ def hidden_state(check: Check, mods, rule: str = 'R-PURE.state', only_kinds=('ca
   return n
 
 
+def donation_scope(check: Check, da=None, only_files=None, rule: str = 'R-DONATE.scope'):
+  """Who may donate: only the private wrappers of tree_util (their callers own the first operand) and the per-client steps of
+  for_each_client (the client state they donate is created by the backend). A donation declared anywhere else in the library
+  invalidates buffers that belong to the caller of a public function (an optimizer state, the clients' updates ...)."""
+  repo = check.repo
+  da = da or DonationAnalysis(repo)
+  DONORS = ('fedjax/core/tree_util.py', 'fedjax/core/for_each_client.py')
+  for dm, node, t, nums in da.declared():
+    if not dm.relpath.startswith('fedjax/') or (only_files is not None and dm.relpath not in only_files):
+      continue
+    if dm.relpath not in DONORS:
+      check.ob(rule, dm.enclosing_func(node) or dm, f'donate_argnums={t}', False,
+               'donation declared outside tree_util.py / for_each_client.py: the arguments of this function are the caller\'s (a server '
+               'or optimizer state, client updates) and are deleted by the call', node=node, exact=True)
+
+
 NON_STATE_VALUES = {'types.MappingProxyType', 'builtins.iter', 'builtins.map', 'builtins.filter', 'builtins.zip', 'builtins.open',
                     'builtins.enumerate', 'builtins.reversed'}
 
@@ -286,19 +302,10 @@ def run(check: Check):
           check.ob('R-DONATE', fi or m, txt(node), False,
                    'module-private donating wrapper used outside fedjax/core/tree_util.py: its first argument is '
                    'invalidated', node=node, advisory=m.name.split('.')[0] != 'fedjax')
-  # who may donate: only the private wrappers of tree_util (their callers own the first operand) and the per-client steps of
-  # for_each_client (the client state they donate is created by the backend). A donation declared anywhere else in the library
-  # invalidates buffers that belong to the caller of a public function (an optimizer state, the clients' updates ...).
-  DONORS = ('fedjax/core/tree_util.py', 'fedjax/core/for_each_client.py')
-  n_decl = 0
-  for dm, node, t, nums in da.declared():
-    if not dm.relpath.startswith('fedjax/'):
-      continue
-    n_decl += 1
-    if dm.relpath not in DONORS:
-      check.ob('R-DONATE.scope', dm.enclosing_func(node) or dm, f'donate_argnums={t}', False,
-               'donation declared outside tree_util.py / for_each_client.py: the arguments of this function are the caller\'s (a server '
-               'or optimizer state, client updates) and are deleted by the call', node=node, exact=True)
+  donation_scope(check, da)
+  # the optimizer wrapper used by server optimizers hands back fresh containers: it does not write into the params it was given
+  from fjsa.props import c17
+  c17._ignore_grads(check)
   check.ob('R-DONATE', tu, f'private donors {sorted(private_donors)}', True,
            f'referenced only inside tree_util.py; donation sites in algorithms/aggregators: {n_sites}', nontrivial=True)
   # -- compression state carries a fresh key
